@@ -1066,7 +1066,7 @@ func TestC32(t *testing.T) {
 
 	menu := verifC32Menu()
 	bruteDepth := 2
-	maxDepth := r.Pick(2, 4)
+	maxDepth := r.Pick(2, 3)
 	rcases := verifC32RestoreCases(r.Thorough())
 	r.Info("bounds", map[string]int{"import_menu_members": len(menu), "import_names": len(verifC32Names), "import_max_members": maxDepth, "import_brute_force_members": bruteDepth,
 		"restore_cases": len(rcases), "restore_corruptions": len(verifC32CorruptKinds)*3 + 2, "restore_interruptions": 5})
